@@ -38,6 +38,7 @@ type memConn struct {
 	writeGate     chan struct{} // when non-nil, Write blocks until it is closed (stall)
 	inWrite       int           // writers currently parked at the gate
 	afterWrites   int           // bytes accepted after Close frame detection (diagnostics)
+	dlChanged     chan struct{}  // closed (and replaced) whenever the write deadline is set: wakes stalled writers
 	onWrite       func(p []byte) // observer called at the start of every Write, outside the lock
 }
 
@@ -176,23 +177,37 @@ func (c *memConn) Write(p []byte) (int, error) {
 	if gate != nil {
 		c.inWrite++
 		c.cond.Broadcast()
-		dl := c.writeDL
-		c.mu.Unlock()
-		if dl.IsZero() {
-			<-gate
-		} else { // a stalled write gives up at its deadline, as a socket write does
-			t := time.NewTimer(time.Until(dl))
+		// a stalled write gives up at its deadline, as a socket write does — also at a deadline that is set (by another
+		// goroutine) while the write is already stalled
+		for parked := true; parked; {
+			dl := c.writeDL
+			changed := c.dlChanged
+			if changed == nil {
+				changed = make(chan struct{})
+				c.dlChanged = changed
+			}
+			c.mu.Unlock()
+			var timer <-chan time.Time
+			var t *time.Timer
+			if !dl.IsZero() {
+				t = time.NewTimer(time.Until(dl))
+				timer = t.C
+			}
 			select {
 			case <-gate:
-				t.Stop()
-			case <-t.C:
+				parked = false
+			case <-timer:
 				c.mu.Lock()
 				c.inWrite--
 				c.mu.Unlock()
 				return 0, os.ErrDeadlineExceeded
+			case <-changed: // re-read the deadline
 			}
+			if t != nil {
+				t.Stop()
+			}
+			c.mu.Lock()
 		}
-		c.mu.Lock()
 		c.inWrite--
 		if c.closed {
 			c.mu.Unlock()
@@ -255,6 +270,7 @@ func (c *memConn) SetDeadline(t time.Time) error {
 		return net.ErrClosed
 	}
 	c.readDL, c.writeDL = t, t
+	c.wakeStalledLocked()
 	c.cond.Broadcast()
 	return nil
 }
@@ -275,7 +291,15 @@ func (c *memConn) SetWriteDeadline(t time.Time) error {
 		return net.ErrClosed
 	}
 	c.writeDL = t
+	c.wakeStalledLocked()
 	return nil
+}
+
+func (c *memConn) wakeStalledLocked() {
+	if c.dlChanged != nil {
+		close(c.dlChanged)
+		c.dlChanged = nil
+	}
 }
 
 // ---- harness-side helpers ---------------------------------------------------------------------
